@@ -202,7 +202,9 @@ pub fn cases(ctx: &Ctx) -> Vec<Case> {
     if !ctx.k.is_prod() {
         return v;
     }
-    let sizes: Vec<u64> = if ctx.quick() { vec![8, 64] } else { vec![16, 128, 1024] };
+    // the smallest size is past the warm-up of the encoder (its buffers reach their final size after a
+    // few 4 MiB blocks: 13.3 MB at 8 MiB, 15.97 MB from 16 MiB on at level 5); the statement itself compares 64 MiB and 1 GiB
+    let sizes: Vec<u64> = if ctx.quick() { vec![32, 128] } else { vec![64, 256, 1024] };
     let levels: Vec<u32> = if ctx.quick() { vec![1, 5] } else { vec![0, 5, 9] };
     for op in ["write", "repair", "extract"] {
         for layers in [0u8, 1, 2, 3] {
@@ -217,7 +219,7 @@ pub fn cases(ctx: &Ctx) -> Vec<Case> {
                     let mut s = sizes.clone();
                     // 1 GiB of incompressible data through brotli quality 9 takes several minutes
                     if level >= 9 && data == "random" {
-                        s.retain(|m| *m <= 128);
+                        s.retain(|m| *m <= 256);
                     }
                     for shape in ["interleaved", "oneblock"] {
                         // the second shape on a reduced matrix
